@@ -501,6 +501,59 @@ def request_level(w):
 
 
 @atom()
+def monitor_and_config(w):
+    """Policy directory monitor and server configuration: operator-supplied names and paths reach INFO logs."""
+    import json
+    import os
+    import signal
+    import tempfile
+    from kmip.services.server import monitor as mon, config as cfg
+    d = tempfile.mkdtemp(dir=str(w.ctx.work))
+    w.scratch.append(d)
+    saved = signal.getsignal(signal.SIGINT), signal.getsignal(signal.SIGTERM)
+    sec = {'preset': {'SYMMETRIC_KEY': {'GET': 'ALLOW_ALL', 'DESTROY': 'ALLOW_OWNER'}}}
+
+    def put(name, text, t):
+        fn = os.path.join(d, name)
+        with open(fn, 'w') as f:
+            f.write(text)
+        os.utime(fn, (t, t))
+    try:
+        store = {}
+        m = mon.PolicyDirectoryMonitor(d, store, live_monitoring=False)
+        put('a.json', json.dumps({'pol-a': sec, 'pol-b': sec}), 1000)
+        put('bad.json', '{"pol-x": {"preset": ', 1000)
+        put('reserved.json', json.dumps({'default': sec, 'public': sec}), 1000)
+        put('shape.json', json.dumps({'pol-y': {'preset': {'SYMMETRIC_KEY': {'GET': 'NOPE'}}}}), 1000)
+        m.scan_policies()
+        put('b.json', json.dumps({'pol-a': sec}), 2000)
+        m.scan_policies()
+        os.unlink(os.path.join(d, 'b.json'))
+        m.scan_policies()
+        os.unlink(os.path.join(d, 'a.json'))
+        m.scan_policies()
+        w.trace.append({'step': len(w.trace), 'monitor': sorted(store)})
+    finally:
+        signal.signal(signal.SIGINT, saved[0])
+        signal.signal(signal.SIGTERM, saved[1])
+    c = cfg.KmipServerConfig()
+    conf = os.path.join(d, 'server.conf')
+    for text in (None, '[client]\nhost=x\n', '[server]\nhostname=127.0.0.1\nbogus_setting=1\n', '[server]\nhostname=127.0.0.1\nport=70000\n'):
+        if text is not None:
+            with open(conf, 'w') as f:
+                f.write(text)
+        try:
+            c.load_settings(conf if text is not None else os.path.join(d, 'missing.conf'))
+        except Exception as e:
+            w.messages.append((len(w.trace), 'client-error', '%s: %s' % (type(e).__name__, e)))
+    for k, v in (('port', 'x'), ('logging_level', 'LOUD'), ('nonsense', 1), ('tls_cipher_suites', 5)):
+        try:
+            c.set_setting(k, v)
+        except Exception as e:
+            w.messages.append((len(w.trace), 'client-error', '%s: %s' % (type(e).__name__, e)))
+
+
+@atom()
 def restart_and_reuse(w):
     w.eng.restart()
     w.eng.engine._logger.setLevel(logging.NOTSET)
@@ -693,5 +746,5 @@ CURATED = [
     ('session-auth', 'session', ['setup_keys', 'sess_auth_password', 'sess_slugs']),
     ('session-malformed', 'session', ['setup_keys', 'sess_malformed']),
     ('client-loopback', 'client', ['client_ops']),
-    ('engine-attributes-requests', 'engine', ['setup_keys', 'lifecycle_all_types', 'attribute_paths', 'request_level', 'restart_and_reuse', 'locate_query']),
+    ('engine-attributes-requests', 'engine', ['setup_keys', 'lifecycle_all_types', 'attribute_paths', 'request_level', 'restart_and_reuse', 'locate_query', 'monitor_and_config']),
 ]
